@@ -17,7 +17,7 @@ def si(bps=16, channels=2, rate=44100, total=1000, minfs=0, maxfs=0, minbs=4096,
             "total": HL(total), "md5": md5 or [0] * 16}
 
 
-def cue_block(rnd, ntracks, nidx, gap, pregap=False, catalog=True, cdda=True, first_index0_256=False, catalog_len=13, isrc_tail=5):
+def cue_block(rnd, ntracks, nidx, gap, pregap=False, catalog=True, cdda=True, first_index0_256=False, catalog_len=13, isrc_tail=5, dashed=None):
     """abstract CUESHEET value + the text that builds it through Cuesheet::parse"""
     unit = 588 if cdda else 1
     lines = []
@@ -29,9 +29,11 @@ def cue_block(rnd, ntracks, nidx, gap, pregap=False, catalog=True, cdda=True, fi
     for k in range(1, ntracks + 1):
         lines.append("  TRACK %02d AUDIO" % k)
         isrc = ""
-        if rnd.random() < 0.4 or isrc_tail != 5:
+        if rnd.random() < 0.4 or isrc_tail != 5 or dashed:
             isrc = "US" + "ABC" + "%02d" % rnd.randint(0, 99) + ("%020d" % rnd.randint(0, 10 ** 12))[20 - isrc_tail:]
-            lines.append("    ISRC " + isrc)
+            # the text form may separate the four parts of the code with dashes; the block stores the twelve characters
+            dash = len(isrc) == 12 and (dashed if dashed is not None else k % 2 == 0)
+            lines.append("    ISRC " + (isrc[:2] + "-" + isrc[2:5] + "-" + isrc[5:7] + "-" + isrc[7:] if dash else isrc))
         pre = rnd.random() < 0.3
         if pre:
             lines.append("    FLAGS PRE")
@@ -121,6 +123,8 @@ def c11_items(t, rnd):
         add("cuesheet-noncdda-catalog-%d" % n, [si(), cue_block(rnd, 2, 2, 100, cdda=False, catalog=True, catalog_len=n)])
     for tail in (0, 2, 4, 6, 10):
         add("cuesheet-isrc-%d" % (7 + tail), [si(), cue_block(rnd, 2, 1, 100, cdda=rnd.random() < 0.5, catalog=False, isrc_tail=tail)])
+    add("cuesheet-isrc-dashed", [si(), cue_block(rnd, 3, 1, 100, catalog=False, dashed=True)])
+    add("cuesheet-isrc-dashed", [si(), cue_block(rnd, 2, 2, 10, cdda=False, catalog=False, dashed=True)])
     add("cuesheet-noncdda-256-indices", [si(), cue_block(rnd, 1, 256, 1, cdda=False, catalog=False, first_index0_256=True)])
     # lists breaking the single-instance rules
     vc = {"kind": "comment", "vendor": B("v"), "fields": []}
@@ -489,6 +493,38 @@ def damaged_metadata_sections(wd, t, rnd):
     return clist, encs, out
 
 
+def chmask_growth(wd, t):
+    """Growth beyond the listed properties (non-gating): ChannelMask text form, Display, channels(), default masks and
+    Metadata::channel_mask() against ChannelMask.tla."""
+    alphabet = ["0", "x", "3", "f", "F", "+", "g"] + ([] if t == "quick" else [" ", "X"])
+    masks = [0, 1, 3, 4, 7, 0x33, 0x123, 0x607, 0x60F, 0x70F, 0x63F, 0xFFFF, 0x10000, 0x3FFFF, 0x40000, 0x12345, 0xFFFFF, 0x7FFFFFFF, 0x7FFC0000]
+    consts = "cAlphabet == {%s}\ncMasks == {%s}\n" % (", ".join('"%s"' % a for a in alphabet), ", ".join(str(m) for m in masks))
+    cfgc = "CONSTANTS\n Alphabet <- cAlphabet\n MaxLen = 5\n Masks <- cMasks\n PlusAccepted = TRUE\n"
+    mp = write_text(os.path.join(wd, "MCCM.tla"), "---- MODULE MCCM ----\nEXTENDS ChannelMask, SequencesExt\n" + consts +
+                    'ASSUME PrintT(<<"STAT", RoundTrip, DefaultsHaveTheirChannelCount, ChannelsAscending, CaseInsensitiveDigits>>)\n'
+                    'ASSUME PrintT(<<"GEN", ToJson([texts |-> SetToSeq(Texts), masks |-> SetToSeq(Masks)])>>)\n====\n')
+    cp = write_text(os.path.join(wd, "MCCM.cfg"), cfgc + "INIT Init\nNEXT Next\n")
+    r = tlc(mp, cp, wd, workers=1, timeout=1200)
+    stat = tlc_lines(r["out"], "STAT")
+    if r["errors"] or not stat or "FALSE" in stat[0]:
+        sys.stderr.write(r["out"][-2000:])
+        raise ToolError("ChannelMask laws do not hold in the model")
+    gen = gen_payloads(r["out"])[0]
+    tp = os.path.join(wd, "trace_chmask.ndjson")
+    res = run_drive("chmask", {"out": tp, "texts": gen["texts"], "masks": gen["masks"]}, wd, tag="chmask")
+    outcomes = {}
+    for e in read_ndjson(tp):
+        if e["ev"] == "parse":
+            k = "mask" if e["mask"] >= 0 else {-1: "refused", -2: "beyond-model", -9: "panic"}[e["mask"]]
+            outcomes[k] = outcomes.get(k, 0) + 1
+    tm = write_text(os.path.join(wd, "TRCM.tla"), "---- MODULE TRCM ----\nEXTENDS Trace_ChannelMask\n" + consts + "====\n")
+    tc = write_text(os.path.join(wd, "TRCM.cfg"), cfgc + "SPECIFICATION TSpec\nPOSTCONDITION Post\nCHECK_DEADLOCK FALSE\n")
+    tr = tlc_trace(tm, tc, tp, wd)
+    for ln in tr["rejects"][:5]:
+        log("GROWTH-SPEC-MISMATCH module=ChannelMask " + ln[:300])
+    return {"texts": len(gen["texts"]), "masks": len(gen["masks"]), "events": res["events"], "parse_outcomes": outcomes, "mismatches": len(tr["rejects"])}
+
+
 def run_c12(pid):
     t0 = time.time()
     t = tier()
@@ -661,9 +697,12 @@ def run_c12(pid):
                 v.violation(sig, "rule %s fails for %s input %d (%s, %s profile): %s" % (rule, kind, iid, cls, profile, rest[:300]),
                             {"kind": kind, "class": cls, "text": it.get("text"), "bytes": it.get("bytes") if len(it.get("bytes", [])) < 3000 else None, "profile": profile})
     sg = sniff_growth(wd, pid, items, sniff_traces)
+    cm = chmask_growth(wd, t)
+    log("[%s] growth: ChannelMask %d texts, %d masks, %d events judged, parse outcomes %s, %d mismatches (non-gating)"
+        % (pid, cm["texts"], cm["masks"], cm["events"], cm["parse_outcomes"], cm["mismatches"]))
     rc = v.finish()
     write_evidence(pid, "model_checking", {
-        "growth_picture_sniff": sg,
+        "growth_picture_sniff": sg, "growth_channel_mask": cm,
         "states": nseq, "transitions": sum(outcomes.values()), "traces_validated_against_impl": len(items) * 2,
         "evaluations": sum(outcomes.values()), "distinct_nontrivial": len(items), "exhaustive": False,
         "samples": [{"kind": items[5]["kind"], "text": items[5].get("text")}, {"kind": "sniff", "class": "png"}],
